@@ -41,6 +41,22 @@ class _Continue(Exception):
     pass
 
 
+class _Break(Exception):
+    pass
+
+
+class _Return(Exception):
+    def __init__(self, v: Any):
+        self.v = v
+
+
+class _Pieces:
+    """the result of "".join(<list of pieces>)"""
+
+    def __init__(self, items: List[Any]):
+        self.items = items
+
+
 class TokfmtModel:
     """Abstract interpreter for the body of tokfmt()."""
 
@@ -50,23 +66,9 @@ class TokfmtModel:
         self.F = ctx.repo.folder("tokfmt")
         self.fn = self.mod.func("tokfmt")
         self.param = self.fn.args.args[0].arg
-        loops = [st for st in self.fn.body if isinstance(st, ast.For)]
-        if len(loops) != 1:
-            raise AnalysisError("tokfmt: expected exactly one token loop")
-        self.loop = loops[0]
-        if not (isinstance(self.loop.iter, ast.Name) and self.loop.iter.id == self.param and isinstance(self.loop.target, ast.Name)):
-            raise AnalysisError("tokfmt: loop does not iterate over the token list parameter")
-        self.tokvar = self.loop.target.id
-        self.pre = self.fn.body[: self.fn.body.index(self.loop)]
-        self.post = self.fn.body[self.fn.body.index(self.loop) + 1:]
-        # the output accumulator: joined with "" at the end
-        self.acc = None
-        for st in self.post:
-            if isinstance(st, ast.Return) and isinstance(st.value, ast.Call) and isinstance(st.value.func, ast.Attribute) and st.value.func.attr == "join":
-                if isinstance(st.value.func.value, ast.Constant) and st.value.func.value.value == "" and isinstance(st.value.args[0], ast.Name):
-                    self.acc = st.value.args[0].id
-        if self.acc is None:
-            raise AnalysisError("tokfmt: result is not ''.join(<list>)")
+        # the function is interpreted as a whole on concrete sequences of token classes (run_seq): any number of loops over
+        # the token list, break / continue / for-else, early returns
+        self.loop = self.fn
         self.excluded: List[Tuple[str, str]] = []
         self.value_consts: Set[str] = set()
         for n in walk_local(self.loop):
@@ -80,23 +82,20 @@ class TokfmtModel:
                                 self.value_consts.add(e.value)
 
     # -- evaluation
-    def initial(self) -> Dict[str, Any]:
-        env: Dict[str, Any] = {}
-        for st in self.pre:
-            self._exec(st, env, None)
-        return env
-
-    def feed(self, env: Dict[str, Any], c: Cls) -> List[Any]:
-        """Run the loop body for one token of class c; returns what was
-        appended to the accumulator (strings, or the marker VALUE)."""
-        before = len(env[self.acc])
-        env[self.tokvar] = c
+    def run_seq(self, seq: List[Cls]) -> List[Any]:
+        """Interpret tokfmt on the token list `seq`; returns the pieces of the text it returns (strings and _Val markers)."""
+        env: Dict[str, Any] = {self.param: list(seq)}
         try:
-            for st in self.loop.body:
-                self._exec(st, env, c)
-        except _Continue:
-            pass  # `continue` ends this token's turn
-        return env[self.acc][before:]
+            for st in self.fn.body:
+                self._exec(st, env, None)
+        except _Return as r:
+            v = r.v
+            if isinstance(v, _Pieces):
+                return v.items
+            if isinstance(v, str):
+                return [v]
+            raise AnalysisError(f"tokfmt: returns something that is not text: {v!r}")
+        raise AnalysisError("tokfmt: can finish without returning")
 
     VALUE = object()
 
@@ -127,6 +126,33 @@ class TokfmtModel:
             return
         if isinstance(st, ast.Continue):
             raise _Continue()
+        if isinstance(st, ast.Break):
+            raise _Break()
+        if isinstance(st, ast.Return):
+            raise _Return(self._ev(st.value, env, c) if st.value is not None else None)
+        if isinstance(st, ast.For) and isinstance(st.target, (ast.Name, ast.Tuple)):
+            it = self._ev(st.iter, env, c)
+            if not isinstance(it, (list, tuple)):
+                raise AnalysisError(f"tokfmt: loop over something that is not a sequence: {short(st.iter)}")
+            broke = False
+            for item in it:
+                self._bind(st.target, item, env)
+                try:
+                    for s_ in st.body:
+                        self._exec(s_, env, item if isinstance(item, Cls) else c)
+                except _Continue:
+                    continue
+                except _Break:
+                    broke = True
+                    break
+            if not broke:
+                for s_ in st.orelse:
+                    self._exec(s_, env, c)
+            return
+        if isinstance(st, ast.Expr) and isinstance(st.value, ast.Call) and isinstance(st.value.func, ast.Attribute) and st.value.func.attr == "extend" and isinstance(st.value.func.value, ast.Name) \
+                and isinstance(env.get(st.value.func.value.id), list):
+            env[st.value.func.value.id] = env[st.value.func.value.id] + list(self._ev(st.value.args[0], env, c))
+            return
         raise AnalysisError(f"tokfmt: statement shape not modelled: {short(st)}")
 
     def _bind(self, t: ast.AST, v: Any, env: Dict[str, Any]) -> None:
@@ -205,6 +231,10 @@ class TokfmtModel:
                 arg = self._ev(e.args[0], env, c)
                 if isinstance(recv, _Val):
                     return recv.affix(ch[-1], arg)
+            if ch is None and isinstance(e.func, ast.Attribute) and e.func.attr == "join" and isinstance(e.func.value, ast.Constant) and e.func.value.value == "" and len(e.args) == 1:
+                items = self._ev(e.args[0], env, c)
+                if isinstance(items, (list, tuple)):
+                    return _Pieces(list(items))
             if isinstance(e.func, ast.Name) and e.func.id == "len":
                 v = self._ev(e.args[0], env, c)
                 if isinstance(v, (list, tuple, str, dict, set)):
@@ -213,6 +243,15 @@ class TokfmtModel:
             v = self._ev(e.value, env, c)
             if isinstance(v, (tuple, list, dict)):
                 return v[self._ev(e.slice, env, c)]
+        if isinstance(e, (ast.ListComp, ast.GeneratorExp)) and len(e.generators) == 1 and not e.generators[0].ifs and isinstance(e.generators[0].target, ast.Name):
+            it = self._ev(e.generators[0].iter, env, c)
+            if isinstance(it, (list, tuple)):
+                out_ = []
+                env2 = dict(env)
+                for item in it:
+                    env2[e.generators[0].target.id] = item
+                    out_.append(self._ev(e.elt, env2, item if isinstance(item, Cls) else c))
+                return out_
         raise AnalysisError(f"tokfmt: expression shape not modelled: {short(e)}")
 
     def _cmp(self, l: Any, op: ast.cmpop, r: Any) -> bool:
@@ -454,23 +493,27 @@ def run(ctx: Ctx) -> None:
     ctx.trusted = ["re._parser", "PLY facts: " + "; ".join(f"{k}={v}" for k, v in lm.facts.items()),
                    "assumption: a rule prefers a match that crosses the boundary when one exists (witness text is printed so it can be confirmed)"]
     names = list(classes)
-    init = tf.initial()
-
     def separated(seq: List[Cls]) -> List[bool]:
-        """for a class sequence, whether a blank precedes element k (k>=1)"""
-        env = {k: (list(v) if isinstance(v, list) else v) for k, v in init.items()}
-        out = []
-        for k, c in enumerate(seq):
-            emitted = tf.feed(env, c)
-            # the token's own value must be appended last and exactly once
-            vals = [x for x in emitted if isinstance(x, _Val)]
-            if len(vals) != 1 or not isinstance(emitted[-1], _Val) or vals[0].c is not c:
-                raise AnalysisError("tokfmt: loop body does not append exactly the token's value last")
-            seps = [x for x in emitted[:-1]]
-            if any(not (isinstance(x, str) and x.strip(" ") == "") for x in seps):
-                raise AnalysisError(f"tokfmt: emits something other than blanks between tokens: {seps!r}")
-            if k > 0:
-                out.append(any(x for x in seps))
+        """for a class sequence, whether a blank precedes element k (k>=1) in the text tokfmt returns"""
+        pieces = tf.run_seq(seq)
+        vals = [x for x in pieces if isinstance(x, _Val)]
+        if len(vals) != len(seq) or any(v.c is not c_ for v, c_ in zip(vals, seq)):
+            raise AnalysisError("tokfmt: the text does not contain each token's value once, in order")
+        if not pieces or not isinstance(pieces[-1], _Val) or not isinstance(pieces[0], _Val):
+            raise AnalysisError(f"tokfmt: emits something before the first or after the last token: {pieces!r}")
+        out: List[bool] = []
+        gap: List[Any] = []
+        seen_first = False
+        for x in pieces:
+            if isinstance(x, _Val):
+                if seen_first:
+                    if any(not (isinstance(g, str) and g.strip(" ") == "") for g in gap):
+                        raise AnalysisError(f"tokfmt: emits something other than blanks between tokens: {gap!r}")
+                    out.append(any(g for g in gap))
+                seen_first = True
+                gap = []
+            else:
+                gap.append(x)
         return out
 
     # -------------------------------------------------------------- pairs
@@ -610,3 +653,9 @@ def run(ctx: Ctx) -> None:
         ctx.ob("R16.3", "tokfmt:tokfmt|all other triples", True, detail={"triples_without_blanks": n3}, node=tf.fn, mod=tf.mod)
         ctx.extra["triples_examined"] = n3
     ctx.exhaustive = True
+
+    # -------------------------------------------------------------- R16.4
+    # "the formatted text": what Value.format() and the other users of tokfmt return is tokfmt's text; a caller that
+    # edits it (collapsing blanks, stripping) changes the text of string and character literals.  C17's R17.10 on types.py.
+    from .c17 import check_text_not_edited as _cte
+    _cte(ctx, "R16.4", ctx.repo.mod("types"))
